@@ -101,13 +101,16 @@ Fixpoint alloc_n (n : nat) (mk : heap -> res (heap * val)) (h : heap) : res (hea
   | S n' => do p <- mk h; let '(h1, v) := p in do q <- alloc_n n' mk h1; let '(h2, vs) := q in Ok (h2, v :: vs)
   end.
 
+Definition zero_elem (e : irty) : val := match e with ITFloat => VFloat zero | _ => VInt 0 end.
+
 Fixpoint create_instance (t : irty) (h : heap) : res (heap * val) :=
   match t with
-  | ITInt _ | ITFloat => Ok (h, VInt 0)                       (* 0 for float variables too *)
-  | ITVec _ n => let '(h1, a) := alloc h (OList (repeat (VInt 0) n)) in Ok (h1, VRef a)
-  | ITMat _ rows cols =>
-      (* [[0] * cols] * rows : every row is the same list object *)
-      let '(h1, a) := alloc h (OList (repeat (VInt 0) cols)) in
+  | ITInt _ => Ok (h, VInt 0)
+  | ITFloat => Ok (h, VFloat zero)
+  | ITVec e n => let '(h1, a) := alloc h (OList (repeat (zero_elem e) n)) in Ok (h1, VRef a)
+  | ITMat e rows cols =>
+      (* [[zero] * cols] * rows : every row is the same list object *)
+      let '(h1, a) := alloc h (OList (repeat (zero_elem e) cols)) in
       let '(h2, b) := alloc h1 (OList (repeat (VRef a) rows)) in Ok (h2, VRef b)
   | ITStruct _ fields =>
       do r <- (fix go (fs : list (string * irty)) (h : heap) : res (heap * list (string * val)) :=
